@@ -61,12 +61,15 @@ MonListingIsTranslation ==
 \* every lookup result agrees with every listing of the same directory, whichever came first
 MonListedIffLookup ==
     \A r \in lks : \A L \in hls : LookupAgrees(r, L, isRoot)
-\* a whiteout is a 0/0 character device also through Getattr of the child
-MonWhiteoutShape ==
-    (last.ev \in {"Lookup", "GetattrChild"} /\ last.errno = "OK" /\ last.kind = "chr") => last.rdev = 0
+\* type and device number through Lookup and through Getattr of the child: real entries keep their own (a real 0:0
+\* character device too), synthesised whiteouts are 0/0 character devices
+MonEntryAttr ==
+    (last.ev \in {"Lookup", "GetattrChild"}) => EntryAttrOK(last, src \ (IF isRoot THEN {TocName} ELSE {}), isRoot)
 \* Getattr of a child reports what the listing reports
 MonChildAttr ==
-    (last.ev = "GetattrChild") =>
+    \* ("NOCHILD" = the walk wanted the attributes of a child whose Lookup had failed: the driver had no inode to ask;
+    \* that failed Lookup is judged by MonListedIffLookup, at the latest at the listing that ends every walk)
+    (last.ev = "GetattrChild" /\ last.errno # "NOCHILD") =>
         /\ last.errno = "OK"
         /\ \A L \in hls : last.n \in NamesOf(L) => (last.kind = EntryOf(L, last.n).kind /\ last.ino = EntryOf(L, last.n).ino)
 \* inode numbers: all in the layer's range, 1 and 2 only for the state directory and its file, one number per name
